@@ -1588,6 +1588,7 @@ var ruleLexTables = &core.Rule{ID: "R09.5", Min: 6,
 		var retKind func(h *ssa.Function, depth int) (string, error)
 		classify := func(f *ssa.Function, b *ssa.BasicBlock, exits []fde.Exit, depth int) (string, error) {
 			kind := ""
+			loopForked := false
 			for _, x := range exits {
 				k := "other"
 				switch {
@@ -1607,10 +1608,20 @@ var ruleLexTables = &core.Rule{ID: "R09.5", Min: 6,
 					k = "on" // next byte test, a delegated scanner, or entry of an inner loop
 				}
 				// an end-of-input test right after the byte may lead to a failure as well as on: keep the non-failure kind
-				if kind == "" || kind == "fail" {
+				// likewise an end-of-input pre-test of a counted loop over the following bytes (`for range min(k,
+				// len(b)-n)`) may skip that loop and go round the enclosing one: the byte's own outcome is "on"
+				switch {
+				case kind == "" || kind == "fail":
 					kind = k
-				} else if k != "fail" && kind != k {
+				case k == "fail" || kind == k:
+				case kind == "on" && k == "loop" && x.Forked > 0:
+				case kind == "loop" && k == "on" && loopForked:
+					kind = "on"
+				default:
 					kind = "mixed"
+				}
+				if k == "loop" {
+					loopForked = x.Forked > 0
 				}
 			}
 			return kind, nil
@@ -1642,6 +1653,7 @@ var ruleLexTables = &core.Rule{ID: "R09.5", Min: 6,
 			return classify(caller, call.Block(), exits, depth)
 		}
 		var descs []string
+		var descBlocks []*ssa.BasicBlock
 		n := 0
 		for _, f := range unit {
 			bp := byteParam(f)
@@ -1702,6 +1714,7 @@ var ruleLexTables = &core.Rule{ID: "R09.5", Min: 6,
 						continue
 					}
 					descs = append(descs, descTab(tab))
+					descBlocks = append(descBlocks, b)
 				}
 			}
 		}
@@ -1733,7 +1746,104 @@ var ruleLexTables = &core.Rule{ID: "R09.5", Min: 6,
 			s.Check(got == w, fmt.Sprintf("%s: %s table", f.Name(), names[i]), c.Pos(f.Pos()), got, fmt.Sprintf("byte table is {%s}, RFC 8259 string syntax requires {%s}", got, w))
 		}
 		s.Check(len(descs) == 3, f.Name()+": three byte tests (body, escape, hex)", c.Pos(f.Pos()), fmt.Sprint(len(descs)), fmt.Sprintf("%d byte tests in the string scanner", len(descs)))
+		// the \u escape takes exactly four hexadecimal digits: trip bound of the loop around the hex-digit test
+		for j, d := range descs {
+			if d != want[2] || j >= len(descBlocks) {
+				continue
+			}
+			hb := descBlocks[j]
+			k, how := hexLoopBound(hb)
+			key := f.Name() + ": \\u is followed by four hex digits"
+			switch {
+			case how == "":
+				s.Und(key, c.Pos(hb.Instrs[0].Pos()), "the loop around the hex-digit test has no recognised constant trip bound")
+			default:
+				s.Check(k == 4, key, c.Pos(hb.Instrs[0].Pos()), how, fmt.Sprintf("the hex-digit loop of the \\u escape runs at most %d times (%s): RFC 8259 requires exactly four digits", k, how))
+			}
+		}
 	}}
+
+// hexLoopBound: the constant trip bound of the innermost loop around block hb:
+// a counter from 0 in steps of 1 tested `< K` at the loop header (possibly with
+// further conjuncts), or a `for range L` loop with L = K or min(K, ...).
+func hexLoopBound(hb *ssa.BasicBlock) (int64, string) {
+	f := hb.Parent()
+	var hdr *ssa.BasicBlock
+	for _, h := range f.Blocks {
+		if !(h == hb || h.Dominates(hb)) || !core.Reach(hb)[h] {
+			continue
+		}
+		back := false
+		for _, p := range h.Preds {
+			if h.Dominates(p) {
+				back = true
+			}
+		}
+		if back && (hdr == nil || hdr.Dominates(h)) {
+			hdr = h
+		}
+	}
+	if hdr == nil {
+		return 0, ""
+	}
+	constOrMin := func(v ssa.Value) (int64, bool) {
+		if k, ok := core.ConstInt(v); ok {
+			return k, true
+		}
+		if call, ok := v.(*ssa.Call); ok {
+			if b, isB := call.Call.Value.(*ssa.Builtin); isB && b.Name() == "min" {
+				for _, a := range call.Call.Args {
+					if k, ok := core.ConstInt(a); ok {
+						return k, true
+					}
+				}
+			}
+		}
+		return 0, false
+	}
+	for _, in := range hdr.Instrs {
+		ph, ok := in.(*ssa.Phi)
+		if !ok {
+			break
+		}
+		if !core.IsInteger(ph.Type()) {
+			continue
+		}
+		okInit, okStep := true, false
+		var next ssa.Value
+		for i, p := range hdr.Preds {
+			if hdr.Dominates(p) {
+				if add, ok := ph.Edges[i].(*ssa.BinOp); ok && add.Op == token.ADD && add.X == ssa.Value(ph) && core.IsConstInt(add.Y, 1) {
+					okStep, next = true, add
+				} else {
+					okInit = false
+				}
+			} else if !core.IsConstInt(ph.Edges[i], 0) {
+				okInit = false
+			}
+		}
+		if !okInit || !okStep {
+			continue
+		}
+		// counted form: j < K tested at the header
+		if iff := core.IfOf(hdr); iff != nil {
+			if bo, ok := iff.Cond.(*ssa.BinOp); ok && bo.Op == token.LSS && bo.X == ssa.Value(ph) {
+				if k, ok := constOrMin(bo.Y); ok {
+					return k, fmt.Sprintf("counter < %d at the loop header", k)
+				}
+			}
+		}
+		// range-over-int form: next < L tested at the latch
+		for _, ref := range *next.Referrers() {
+			if bo, ok := ref.(*ssa.BinOp); ok && bo.Op == token.LSS && bo.X == next {
+				if k, ok := constOrMin(bo.Y); ok {
+					return k, fmt.Sprintf("range over min(%d, remaining input)", k)
+				}
+			}
+		}
+	}
+	return 0, ""
+}
 
 // byteParam: the []byte parameter a scanner function reads its input from.
 func byteParam(f *ssa.Function) *ssa.Parameter {
